@@ -4,11 +4,11 @@ EXTENDS LoDSMEvents, TLC
 CONSTANTS MaxLists, MaxItems
 VARIABLES st
 Init == st = InitSt
-Events == EventsOf(st)
+Events == EventsOf(st) \cup PokesOf(st)
 Next == /\ Len(st.lists) < MaxLists /\ Len(st.items) <= MaxItems
         /\ \E e \in Events : EventOK(st, e) /\ st' = Step(st, e)
 Spec == Init /\ [][Next]_st
 Inv == ModelInv(st)
 ActionProps == \A e \in Events : EventOK(st, e) =>
-                  NonModifyingLeavesItems(st, e) /\ EditorsFlag(st, e) /\ OnlyReceiverItemsEdited(st, e)
+                  NonModifyingLeavesItems(st, e) /\ EditorsFlag(st, e) /\ OnlyReceiverItemsEdited(st, e) /\ DeepcopyIsolated(st, e)
 =============================================================================
